@@ -789,6 +789,47 @@ pub fn run(scn: &Scn, ctx: &Ctx, scratch: &Path) {
             }
         }
     }
+    if !all_rejected {
+        // ... and so must a NEW valid session of the same TSI (a sender that carries on with other objects):
+        // TOIs and FDT instance ids that the earlier traffic never used, the ids LOWER than the corpus ones
+        // (nothing in FLUTE orders instance ids). What was accepted before may have damaged objects of the old
+        // session, it must not blind the receiver to the whole TSI.
+        let mut again = scn.sender.clone();
+        again.spec.toi_initial = Some("40000".into());
+        again.spec.fdt_start_id = 600;
+        for (i, o) in again.objects.iter_mut().enumerate() {
+            o.location = format!("file:///again/obj{}.bin", i);
+            o.seed = o.seed.wrapping_add(0xA6A1);
+        }
+        if let Some(s3) = run_sender(&again, ctx, scratch) {
+            for e in &s3.trace.pkts {
+                p.what = "new session on the same TSI".into();
+                p.push(&e.bytes.clone(), false);
+            }
+            let st = monitor.state.borrow();
+            let mut missing = Vec::new();
+            for o in &s3.objs {
+                let ok = st.writers.iter().any(|w| w.tsi == again.spec.tsi && w.toi == o.toi && w.terminal == Some(Terminal::Complete) && w.data == o.content);
+                if !ok {
+                    missing.push(o.toi);
+                }
+            }
+            drop(st);
+            if missing.is_empty() {
+                ctx.borrow_mut().note("recovery:same-tsi-new-session");
+            } else {
+                violate(
+                    ctx,
+                    "C04/not-usable-after-faults",
+                    "same-tsi-new-session",
+                    format!(
+                        "after the faulty traffic ({} faulty packets accepted, {} rejected) a NEW valid session on the same TSI (TOIs from 40000, FDT instance ids from 600: none of them used before) did not deliver toi(s) {:?}: the receiver is blind to this TSI",
+                        p.accepted_faulty, p.rejected_faulty, missing
+                    ),
+                );
+            }
+        }
+    }
     p.rr.drop_receiver();
     alloc::set_ceiling(usize::MAX);
 }
